@@ -22,7 +22,7 @@ TRUSTED = [
 ASSUMPTIONS = ["numbers: ints are unbounded (no 64-bit wrap), floats and division are outside the compared fragment",
                "programs run with --no-std and declare `print` themselves; programs the reference interpreter cannot handle (OUnsup) are skipped and counted"]
 EXPLANATION = ("THEOREM for a fragment + validation beyond it. C01_fragment_preservation (Coq, closed under the global context): for every resolved "
-               "program in the computable fragment coq/Pres/Frag.v (stage 4k: print external + top-level global values and top-level functions with parameters, called by name, recursion and early `ret e` included, in any order the resolver gives them, start (no parameters) among them; LOCAL functions in any statement list (function bodies, blocks, loop bodies, if-branches) that capture and assign the mutable locals of the enclosing functions -- every pass of a loop its own closure -- called by name, and functions (top-level, local closures, function parameters) passed BY NAME, and LAMBDA expressions passed, to parameters of function type and called there; FUNCTIONS THAT RETURN CLOSURES over the parameters and locals of the call (a new closure per call; passed on to a function parameter, returned again, or named by a constant `c :: mk(1)` and called / passed on by that name, or called where it is computed `mk(1)(2)`); bodies have definitions of int/bool/string "
+               "program in the computable fragment coq/Pres/Frag.v (stage 4l: print external + top-level global values and top-level functions with parameters, called by name, recursion and early `ret e` included, in any order the resolver gives them, start (no parameters) among them; LOCAL functions in any statement list (function bodies, blocks, loop bodies, if-branches) that capture and assign the mutable locals of the enclosing functions -- every pass of a loop its own closure -- called by name, and functions (top-level, local closures, function parameters) passed BY NAME, and LAMBDA expressions passed, to parameters of function type and called there; FUNCTIONS THAT RETURN CLOSURES over the parameters and locals of the call (a new closure per call; passed on to a function parameter, returned again, or named by a constant `c :: mk(1)` and called / passed on by that name, or called where it is computed `mk(1)(2)`); bodies have definitions of int/bool/string "
                "expressions, assignments = += -= *=, print calls, + - *, comparisons, <=>, and/or/not, unary minus, if/elif/else expressions and "
                "statements, loops with break and continue (loop condition without if-expressions), nested blocks), if the lowering gives IR `code` and "
                "the reference interpreter ends with done/assert/unreachable, then LuaCore running the statements of the real preamble.lua followed "
@@ -64,10 +64,10 @@ def gen_cases(ctx):
     n = 160 if ctx.tier == "quick" else 4000
     for i in range(n):
         out.append(("gen", prog_gen.program(vlib.rng(ctx.seed, "c01-%d" % i), 3 if i % 3 else 2)))
-    # programs inside the fragment of the preservation theorem (coq/Pres/Frag.v), stage 1, 2, 3a and 3b shapes (frag4 = top-level functions, frag5 = early returns, frag6 = definitions after start, frag7 = local functions capturing mutable locals, frag8 = local functions in nested blocks / branches / loop bodies, frag9 = strings, frag10 = functions passed to function parameters, frag11 = lambda expressions as arguments, frag12 = functions that return closures, frag13 = function-valued constants, frag14 = computed callees mk(1)(2), frag15 = ret of a function value, frag16 = early returns of function values (guards))
-    nf = 96 if ctx.tier == "quick" else 2400
+    # programs inside the fragment of the preservation theorem (coq/Pres/Frag.v), stage 1, 2, 3a and 3b shapes (frag4 = top-level functions, frag5 = early returns, frag6 = definitions after start, frag7 = local functions capturing mutable locals, frag8 = local functions in nested blocks / branches / loop bodies, frag9 = strings, frag10 = functions passed to function parameters, frag11 = lambda expressions as arguments, frag12 = functions that return closures, frag13 = function-valued constants, frag14 = computed callees mk(1)(2), frag15 = ret of a function value, frag16 = early returns of function values (guards), frag17 = mutable variables holding functions, assigned)
+    nf = 102 if ctx.tier == "quick" else 2550
     for i in range(nf):
-        out.append(("frag%d" % (1 + i % 16), prog_gen.fragment_program(vlib.rng(ctx.seed, "c01-frag-%d" % i), 1 + i % 16)))
+        out.append(("frag%d" % (1 + i % 17), prog_gen.fragment_program(vlib.rng(ctx.seed, "c01-frag-%d" % i), 1 + i % 17)))
     return out
 
 
